@@ -22,6 +22,36 @@ pub struct Vector<T> {
 // vector to another thread
 unsafe impl<T: Send> Send for Vector<T> {}
 
+/// Returns a reference to the header of the vector.
+///
+/// The allocation behind `inner` is only guaranteed to hold the header: the shared empty
+/// vector is just a [`VectorHeader`] and a vector with capacity 0 has no room for a `T`.
+/// A reference to the whole `VectorInner<T>` would extend past such an allocation, so the
+/// header and the data are always reached through these two helpers.
+///
+/// # Safety
+/// `inner` must point to a live vector allocation (or to the shared empty vector).
+unsafe fn header<'a, T>(inner: NonNull<VectorInner<T>>) -> &'a VectorHeader {
+    unsafe { inner.cast::<VectorHeader>().as_ref() }
+}
+
+/// Returns a mutable reference to the header of a vector that is not shared.
+///
+/// # Safety
+/// `inner` must point to a live vector allocation that is uniquely owned by the caller.
+unsafe fn header_mut<'a, T>(inner: NonNull<VectorInner<T>>) -> &'a mut VectorHeader {
+    unsafe { inner.cast::<VectorHeader>().as_mut() }
+}
+
+/// Returns a pointer to the first element slot without creating a reference to
+/// `VectorInner<T>` (see [`header`]).
+///
+/// # Safety
+/// `inner` must point to a live vector allocation (or to the shared empty vector).
+unsafe fn data_ptr<T>(inner: NonNull<VectorInner<T>>) -> *mut T {
+    unsafe { core::ptr::addr_of_mut!((*inner.as_ptr()).data).cast::<T>() }
+}
+
 impl<T> Drop for Vector<T> {
     fn drop(&mut self) {
         unsafe {
@@ -36,10 +66,7 @@ impl<T> Drop for Vector<T> {
                 return;
             }
 
-            if self
-                .inner
-                .as_ref()
-                .header
+            if header(self.inner)
                 .refcount
                 .fetch_sub(1, atomic::Ordering::SeqCst)
                 == 1
@@ -61,9 +88,7 @@ impl<T> Clone for Vector<T> {
                 .load(atomic::Ordering::Relaxed)
                 > 0
             {
-                self.inner
-                    .as_ref()
-                    .header
+                header(self.inner)
                     .refcount
                     .fetch_add(1, atomic::Ordering::SeqCst);
             }
@@ -83,7 +108,7 @@ impl<T> Vector<T> {
 
     /// Returns a pointer to the first element of the array.
     pub fn as_ptr(&self) -> *const T {
-        unsafe { self.inner.as_ref().data.as_ptr() }
+        unsafe { data_ptr(self.inner) }
     }
 
     /// Returns the number of elements in the array
@@ -118,13 +143,8 @@ impl<T: Clone> Vector<T> {
     /// Ensure that the reference count is 1 so the array can be changed.
     /// If that's not the case, the array will be cloned
     fn detach(&mut self, new_capacity: usize) {
-        let is_shared = unsafe {
-            self.inner
-                .as_ref()
-                .header
-                .refcount
-                .load(atomic::Ordering::Relaxed)
-        } != 1;
+        let is_shared =
+            unsafe { header(self.inner).refcount.load(atomic::Ordering::Relaxed) } != 1;
         if !is_shared && new_capacity <= self.capacity() {
             return;
         }
@@ -134,9 +154,9 @@ impl<T: Clone> Vector<T> {
         for x in new_array.into_iter() {
             assert_ne!(size, new_capacity);
             unsafe {
-                core::ptr::write(self.inner.as_mut().data.as_mut_ptr().add(size), x);
+                core::ptr::write(data_ptr(self.inner).add(size), x);
                 size += 1;
-                self.inner.as_mut().header.size = size;
+                header_mut(self.inner).size = size;
             }
             if size == new_capacity {
                 break;
@@ -153,15 +173,8 @@ impl<T: Clone> Vector<T> {
             core::mem::size_of::<T>(),
         ));
         unsafe {
-            core::ptr::write(
-                self.inner
-                    .as_mut()
-                    .data
-                    .as_mut_ptr()
-                    .add(self.inner.as_mut().header.size),
-                value,
-            );
-            self.inner.as_mut().header.size += 1;
+            core::ptr::write(data_ptr(self.inner).add(header(self.inner).size), value);
+            header_mut(self.inner).size += 1;
         }
     }
 }
@@ -187,10 +200,7 @@ impl<T> FromIterator<T> for Vector<T> {
                     core::mem::size_of::<T>(),
                 );
                 unsafe {
-                    result
-                        .inner
-                        .as_ref()
-                        .header
+                    header(result.inner)
                         .refcount
                         .store(0, atomic::Ordering::Relaxed)
                 };
@@ -201,11 +211,11 @@ impl<T> FromIterator<T> for Vector<T> {
                         while *begin < size {
                             unsafe {
                                 core::ptr::write(
-                                    result.inner.as_mut().data.as_mut_ptr().add(*begin),
-                                    core::ptr::read(old_inner.as_ref().data.as_ptr().add(*begin)),
+                                    data_ptr(result.inner).add(*begin),
+                                    core::ptr::read(data_ptr(*old_inner).add(*begin)),
                                 );
                                 *begin += 1;
-                                result.inner.as_mut().header.size = *begin;
+                                header_mut(result.inner).size = *begin;
                             }
                         }
                     }
@@ -215,9 +225,9 @@ impl<T> FromIterator<T> for Vector<T> {
             debug_assert_eq!(result.len(), size);
             debug_assert!(result.capacity() > size);
             unsafe {
-                core::ptr::write(result.inner.as_mut().data.as_mut_ptr().add(size), x);
+                core::ptr::write(data_ptr(result.inner).add(size), x);
                 size += 1;
-                result.inner.as_mut().header.size = size;
+                header_mut(result.inner).size = size;
             }
         }
         result
@@ -254,23 +264,16 @@ impl<T> AsRef<[T]> for Vector<T> {
 /// Drops the inner vector and deallocates the memory. This is only really a
 /// valid operation if the reference count is 0, otherwise there might be other
 /// users.
-unsafe fn drop_inner<T>(mut inner: NonNull<VectorInner<T>>) {
+unsafe fn drop_inner<T>(inner: NonNull<VectorInner<T>>) {
     unsafe {
-        debug_assert_eq!(
-            inner
-                .as_ref()
-                .header
-                .refcount
-                .load(atomic::Ordering::Relaxed),
-            0
-        );
-        let data_ptr = inner.as_mut().data.as_mut_ptr();
-        for x in 0..inner.as_ref().header.size {
+        debug_assert_eq!(header(inner).refcount.load(atomic::Ordering::Relaxed), 0);
+        let data_ptr = data_ptr(inner);
+        for x in 0..header(inner).size {
             core::ptr::drop_in_place(data_ptr.add(x));
         }
         std::alloc::dealloc(
             inner.as_ptr() as *mut u8,
-            compute_inner_layout::<T>(inner.as_ref().header.capacity),
+            compute_inner_layout::<T>(header(inner).capacity),
         )
     }
 }
@@ -280,21 +283,10 @@ impl<T: Clone> IntoIterator for Vector<T> {
     type IntoIter = IntoIter<T>;
     fn into_iter(self) -> Self::IntoIter {
         IntoIter(unsafe {
-            if self
-                .inner
-                .as_ref()
-                .header
-                .refcount
-                .load(atomic::Ordering::Relaxed)
-                == 1
-            {
+            if header(self.inner).refcount.load(atomic::Ordering::Relaxed) == 1 {
                 let inner = self.inner;
                 core::mem::forget(self);
-                inner
-                    .as_ref()
-                    .header
-                    .refcount
-                    .store(0, atomic::Ordering::Relaxed);
+                header(inner).refcount.store(0, atomic::Ordering::Relaxed);
                 IntoIterInner::UnShared(inner, 0)
             } else {
                 IntoIterInner::Shared(self, 0)
@@ -314,21 +306,14 @@ impl<T> Drop for IntoIterInner<T> {
         match self {
             IntoIterInner::Shared(..) => { /* drop of Vector takes care of it */ }
             IntoIterInner::UnShared(inner, begin) => unsafe {
-                debug_assert_eq!(
-                    inner
-                        .as_ref()
-                        .header
-                        .refcount
-                        .load(atomic::Ordering::Relaxed),
-                    0
-                );
-                let data_ptr = inner.as_mut().data.as_mut_ptr();
-                for x in (*begin)..inner.as_ref().header.size {
+                debug_assert_eq!(header(*inner).refcount.load(atomic::Ordering::Relaxed), 0);
+                let data_ptr = data_ptr(*inner);
+                for x in (*begin)..header(*inner).size {
                     core::ptr::drop_in_place(data_ptr.add(x));
                 }
                 std::alloc::dealloc(
                     inner.as_ptr() as *mut u8,
-                    compute_inner_layout::<T>(inner.as_ref().header.capacity),
+                    compute_inner_layout::<T>(header(*inner).capacity),
                 )
             },
         }
@@ -352,8 +337,8 @@ impl<T: Clone> Iterator for IntoIter<T> {
                 result
             }
             IntoIterInner::UnShared(inner, begin) => unsafe {
-                if *begin < inner.as_ref().header.size {
-                    let r = core::ptr::read(inner.as_ref().data.as_ptr().add(*begin));
+                if *begin < header(*inner).size {
+                    let r = core::ptr::read(data_ptr(*inner).add(*begin));
                     *begin += 1;
                     Some(r)
                 } else {
